@@ -158,6 +158,8 @@ static inline int ubuf_pic_plane_check_offset(struct ubuf *ubuf,
         *hoffset_p += ubuf_hsize;
     if (*voffset_p < 0)
         *voffset_p += ubuf_vsize;
+    if (unlikely(*hoffset_p < 0 || *voffset_p < 0))
+        return UBASE_ERR_INVALID;
     if (*hsize_p == -1)
         *hsize_p = ubuf_hsize - *hoffset_p;
     if (*vsize_p == -1)
